@@ -330,7 +330,11 @@ Section Denote.
                   end
               | SIf _ c th el =>
                   match eval en c s with
-                  | Some (s', VBool b) => run fu false en (block (if b then th else el) en k') s'
+                  | Some (s', VBool b) =>
+                      (* the test stays outside the recursive call: with an undecided b both
+                         branches still have a concrete continuation *)
+                      if b then run fu false en (block th en k') s'
+                      else run fu false en (block el en k') s'
                   | _ => (s, OStuck)
                   end
               | SLoop body => run fu false en (ILoop body :: k') s
